@@ -202,6 +202,10 @@ def annotate(rng, recipe, bulk):
                 # names spelled like operands the program already contains: named constants, field names, opcode names
                 t = rng.choice(["pay", "axfer", "appl", "NoOp", "OptIn", "TypeEnum", "Sender", "Amount", "ApplicationArgs", "ApplicationID", "Fee", "int", "txn", "b",
                                 "OnCompletion", "GroupIndex", "NumAppArgs"])
+            elif rr < .32:
+                # ... or exactly like another subroutine (two routines of one name are still two routines)
+                other = rng.choice(r["subs"])
+                t = other.get("label") or other["name"]
             elif rr < .4:
                 # ... or like the label another subroutine gets
                 other = rng.choice(r["subs"])
